@@ -7,7 +7,16 @@ hypothesis of C04's member_equidistant: p_vaddr + (sh_offset - p_offset) = sh_ad
 data at the mapped position), `loaded_resave_fields` (save then load gives the same section and segment
 fields and data; relative to the abstract `Loaded` predicate = C02's decoders, and to C04's disjointness
 `LayoutOk`), `edit_frame` (+ `edit_frame_add_section`: edits outside the segments do not move members
-or segments).  Only covered by correspondence/oracle: that the model's load satisfies `Loaded` on
+or segments).
+COMPOSITION WITH C04 (Props/C05Compose.lean): `image_bytes_at_same_vaddr_of_save` (member of a flat segment) and
+`image_bytes_at_same_vaddr_nested_of_save` (member of a segment nested in a flat one) are
+image_bytes_at_same_vaddr with BOTH layout hypotheses discharged: `LayoutOk` through C03.layoutOk_of_save
+(C04.layout_disjoint) and `Equidistant` through C04.save_segments / C04.save_nested_equidistant.  Remaining
+hypotheses: success of save into a good stream, `C03.SaveDomain o hdr` (decidable facts about the input object),
+C04's writer-domain condition at the turn of the segment (`layoutDomB false false sel`, a Bool function of the
+input; for the nested case `layoutSelB segNestedStartB`, the member lists' inclusion, and the first member
+file-occupying with the explicit address that is the nested segment's p_vaddr), the section is a file-occupying
+member.  Non-vacuity on C03.exBuiltObj (made through the model's API).  Only covered by correspondence/oracle: that the model's load satisfies `Loaded` on
 writer output, equality (not only >=) of reloaded memory sizes, ELF32 equidistance.
 Correspondence: family load.  Oracle: object 0 loads the image and is
 observed, is optionally edited (add a section; append to a section that belongs to no segment; add a
@@ -23,14 +32,16 @@ from families.loadcommon import observe_lines, counts
 
 PROPERTY = "C05"
 FAMILY = "load"
-LEAN_MODULE = "ElfioVerif.Props.C05"
+LEAN_MODULE = "ElfioVerif.Props.C05Compose"
 THEOREMS = ["ElfioVerif.C05.save_writes_fields",
             "ElfioVerif.C05.wsdStep_equidistant",
             "ElfioVerif.C05.image_bytes_at_same_vaddr",
             "ElfioVerif.C05.loaded_resave_fields",
             "ElfioVerif.C05.loaded_resave_names",
             "ElfioVerif.C05.edit_frame",
-            "ElfioVerif.C05.edit_frame_add_section"]
+            "ElfioVerif.C05.edit_frame_add_section",
+            "ElfioVerif.C05.image_bytes_at_same_vaddr_of_save",
+            "ElfioVerif.C05.image_bytes_at_same_vaddr_nested_of_save"]
 SITES = ["save_", "lsws", "lst_", "lseg", "wsd", "load_s", "sec32_load", "sec64_load"]
 RULE = ("well-formed images whose segment contents are covered by sections (encoder-built linker-like images in 4 "
         "configurations; bundled examples that load) x edit histories {none, add section, append to an unsegmented "
